@@ -19,9 +19,12 @@ TRUSTED = ['correspondence harness (pv.engine, pv.proto) and generators of pv.pr
 ASSUMPTIONS = ['asyncio.gather returns the results of its arguments positionally once all of them are done (model assumption; the harness '
                'drives real asyncio futures resolved in a chosen order)',
                'CPython: dict insertion order, sorted() on string keys is codepoint order, zip stops at the shortest input',
-               'containers: list, tuple, namedtuple, dict with string keys, and (callx lines, laws 6-7) dicts with int / string / None keys mixed; the model has plain tuples and string keys only - callx lines are run on the implementation through a fixed bijection (every tuple a namedtuple, keys through KEYMAP) and the result, checked for its container types, is mapped back; pandas/numpy branches of loops, dict subclasses other than dict and ndarray/Series companions are not modelled and not generated',
-               'the library leaf functions (str.lower, str.strip, ...) are applied by the harness to the leaf calls the model predicts; '
-               'the model does not contain them']
+               'containers: list, tuple, namedtuple, dict with string keys, and (callx lines, laws 6-7) dicts with int / string / None keys mixed; the model has plain tuples and string keys only - callx lines are run on the implementation through a fixed bijection (every tuple a namedtuple, keys through KEYMAP) and the result, checked for its container types, is mapped back; pandas/numpy branches of loops, dict subclasses and ndarray/Series companions are a MODEL EXTENSION (liftx lines, pv.props._c19x; beyond the property text: disagreements there are divergences)',
+               'model extension: pandas 3 / numpy semantics of df[key], df.loc, .T, .iloc, pd.Series(dict), DataFrame(dict of Series / of scalars), np.array(list), integer lookup on string labels (KeyError); int64 cells, distinct string labels, non-timeseries Series; leaf results opaque objects or columns',
+               'closed text helpers: on ASCII text str.lower / str.upper change exactly A-Z / a-z and str.strip() removes the characters str.isspace accepts (9-13, 28-32)',
+               'failing awaitables: asyncio.gather propagates the first exception raised to the awaiting task at once (waiterf lines drive real futures with set_exception)',
+               'the library leaf functions other than lower / upper / strip (proper, replace, split, f12, as_float) are applied by the harness to the leaf '
+               'calls the model predicts; the model does not contain them']
 EXHAUSTIVE = {'quick': False, 'thorough': False}
 EXTRA = {}
 
